@@ -29,8 +29,8 @@ PLANS["C05"] = {
 }
 
 PLANS["C08"] = {
-    "quick": [J("writers", "p=1,f=1", 30), J("writers", "f=2", 60), J("writers2", "p=2,f=1", 60), J("writers2", "p=1,f=2", 60), J("pingpair", "p=1,f=1,s=1", 40), J("race-client", "free-running, -race", 120, test="TestE3", shards=1, race=True)],
-    "thorough": [J("writers", "p=2,f=2,s=1", 900), J("writers2", "p=3,f=1,s=1,t=1", 600), J("writers2", "p=1,f=2,s=1", 400), J("pingpair", "p=2,f=1,s=2", 300), J("race-client", "thorough", 300, test="TestE3", shards=1, race=True)],
+    "quick": [J("writers", "p=1,f=1", 30), J("writers", "f=2", 60), J("writers2", "p=2,f=1", 60), J("writers2", "p=1,f=2", 60), J("pingpair", "p=1,f=1,s=1", 40), J("writerslen", "p=1,f=1", 30), J("race-client", "free-running, -race", 120, test="TestE3", shards=1, race=True)],
+    "thorough": [J("writers", "p=2,f=2,s=1", 900), J("writers2", "p=3,f=1,s=1,t=1", 600), J("writers2", "p=1,f=2,s=1", 400), J("pingpair", "p=2,f=1,s=2", 300), J("writerslen", "p=2,f=1,s=1", 200), J("race-client", "thorough", 300, test="TestE3", shards=1, race=True)],
 }
 PLANS["C10"] = {
     "quick": [J("wedge", "p=1,f=1", 45), J("wedge", "f=2", 45), J("wedgeburst", "p=1,f=1", 45), J("wedgeblock", "f=2", 60), J("wedgebig", "f=2", 40)],
@@ -73,13 +73,13 @@ PLANS["C13"] = {
 }
 
 PLANS["C09"] = {
-    "quick": [J("c09-requests", "quick", 120, test="TestE3"), J("c09-sizes", "quick", 120, test="TestE3", shards=4), J("c09-connect", "quick", 120, test="TestE3"), J("c17-slots", "quick", 120, test="TestE3", shards=1)],
-    "thorough": [J("c09-requests", "thorough", 600, test="TestE3"), J("c09-sizes", "thorough", 900, test="TestE3", shards=4), J("c09-connect", "thorough", 600, test="TestE3"), J("c17-slots", "thorough", 120, test="TestE3", shards=1)],
+    "quick": [J("c09-requests", "quick", 120, test="TestE3"), J("c09-sizes", "quick", 120, test="TestE3", shards=4), J("c09-connect", "quick", 120, test="TestE3"), J("c09-backlog", "quick", 60, test="TestE3", shards=4), J("c17-slots", "quick", 120, test="TestE3", shards=1)],
+    "thorough": [J("c09-requests", "thorough", 600, test="TestE3"), J("c09-sizes", "thorough", 900, test="TestE3", shards=4), J("c09-connect", "thorough", 600, test="TestE3"), J("c09-backlog", "thorough", 120, test="TestE3", shards=4), J("c17-slots", "thorough", 120, test="TestE3", shards=1)],
 }
 
 PLANS["C15"] = {
-    "quick": [J("c15-codec", "quick", 120, test="TestE3"), J("c15-denied", "quick", 60, test="TestE3", shards=1), J("puborder", "p=1,f=1", 60)],
-    "thorough": [J("c15-codec", "thorough", 900, test="TestE3"), J("c15-denied", "thorough", 60, test="TestE3", shards=1), J("puborder", "p=2,f=1,s=1", 600), J("restart", "c=1,p=1", 300)],
+    "quick": [J("c15-codec", "quick", 120, test="TestE3"), J("c15-denied", "quick", 60, test="TestE3", shards=1), J("c15-live", "quick", 60, test="TestE3", shards=8), J("puborder", "p=1,f=1", 60)],
+    "thorough": [J("c15-codec", "thorough", 900, test="TestE3"), J("c15-denied", "thorough", 60, test="TestE3", shards=1), J("c15-live", "thorough", 600, test="TestE3"), J("puborder", "p=2,f=1,s=1", 600), J("restart", "c=1,p=1", 300)],
 }
 PLANS["C20"] = {
     "quick": [J("c20-doubles", "quick", 120, test="TestE3"), J("race-doubles", "free-running, -race", 120, test="TestE3", shards=1, race=True)],
